@@ -19,7 +19,7 @@ from prosemirror.transform.doc_attr_step import DocAttrStep
 
 from .. import core, gen, ops, schemas
 from ..core import outcome
-from . import c04_guard, c04_marks
+from . import c04_guard, c04_marks, c04_ops
 
 SINGLE_UNDO = (ReplaceStep, ReplaceAroundStep, AttrStep, DocAttrStep, AddNodeMarkStep, RemoveNodeMarkStep)
 
@@ -110,6 +110,9 @@ def run(ctx):
                 continue
             if op == "markUndoGuards":
                 c04_marks.compare(ctx, replay, payload, out)
+                continue
+            if op == "familyGuard":
+                c04_ops.compare(ctx, replay, payload, out)
                 continue
             info, doc, res_doc, impl_ok = payload
             if "ok" not in out:
@@ -210,6 +213,13 @@ def run(ctx):
         owner = [l["op"] for l in log for _ in range(l["steps_added"])]
         for k, s in enumerate(tr.steps):
             nxt = tr.docs[k + 1] if k + 1 < len(tr.docs) else tr.doc
+            if k < len(owner) and owner[k] in c04_ops.STRUCT and isinstance(s, (ReplaceStep, ReplaceAroundStep)):
+                # the guard of the undo theorem on the steps the structural operations record (c04_ops.py)
+                sti, inv = outcome(lambda: s.invert(tr.docs[k]))
+                stb, back = outcome(lambda: inv.apply(nxt)) if sti == "ok" else ("internal", None)
+                c04_ops.request(ctx, info, tr.docs[k], s, nxt, owner[k],
+                                stb == "ok" and back.doc is not None and back.doc.eq(tr.docs[k]), reqs, metas,
+                                {"schema": info.name})
             if isinstance(s, SINGLE_UNDO) and declared(s, tr.docs[k]):
                 undo_single(ctx, info, tr.docs[k], s, nxt, reqs, metas, "history")
             elif isinstance(s, c04_marks.MARK_STEPS):
@@ -302,6 +312,8 @@ def run(ctx):
                                 ctx.violation("history-undo", "applying the inverted steps in reverse order does not restore the starting document",
                                               {"schema": info.name, "doc": dd[1].to_json(), "ops": ["aimed same-type marks"], "steps": [x.to_json() for x in trm.steps],
                                                "culprit": k, "step": s_.to_json(), "culprit_doc": trm.docs[k].to_json(), "detail": "order of same-type marks"})
+            # structural-only histories (split / join / lift / wrap / retyping): the steps `opHistory_undo` discharges
+            history(info, d, docs, ops.STRUCT_OPS + ["set_node_markup", "set_block_type"], rng.randint(1, 4))
             # mark-only histories (wide ranges over mixed marked / unmarked inline content)
             if schema.marks:
                 for _ in range(2):
